@@ -15,7 +15,7 @@ K_SHAPE = 'outline-shape-symbol'
 K_LVIN = 'outline-loopvar-intent-in'
 K_LIVE = 'outline-local-live'
 K_OUT = 'outline-out-maybe-undefined'
-K_EXT = 'extract-shape-symbol-order'
+K_EXT = 'extract-keyword-call-external'
 CLASS_ORDER = [K_CALL, K_OVR, K_PRINT, K_SHAPE, K_LVIN, K_LIVE, K_OUT]
 
 
@@ -243,7 +243,7 @@ def find_regions(prog):
                     body = ss[i + 1:j]
                     name = hd['name'] or f'{u[1]}_outlined_{len(regions)}'
                     regions.append(dict(hdr=hd, body=body, k=ss[j + 1:] + k, name=name))
-                    if has_kind(body, 'assoc'):
+                    if has_kind(body, 'assoc') or has_marker(body):
                         state['bad'] = True
                     i = j + 1
                     continue
@@ -331,7 +331,26 @@ def _parse(prog):
     return fir.parse_fortran(fir.emit_fortran(prog, wrap_program=False))
 
 
+_CACHE = {}
+
+
 def real_outline(prog):
+    """cached front end of `_real_outline` (impl, classifier and oracle ask for the same program)"""
+    key = dumps(prog)
+    if key not in _CACHE:
+        if len(_CACHE) > 64:
+            _CACHE.clear()
+        try:
+            _CACHE[key] = ('ok', _real_outline(prog))
+        except Exception as e:
+            _CACHE[key] = ('exc', e)
+    tag, val = _CACHE[key]
+    if tag == 'exc':
+        raise val
+    return val
+
+
+def _real_outline(prog):
     """(transformed program in wire form, fgen text of the whole file).  Errors of the harness printer / the frontend
     propagate; errors of the transformation and of fgen raise TransformError; a transformed IR outside FIR raises
     fir.Unsupported."""
@@ -383,6 +402,11 @@ GEN_CFG = dict(max_stmts=16, max_depth=3, symbolic_prob=0.35, n_callees=(0, 1), 
                         'pragma': 1, 'comment': 1, 'assign_scalar': 20, 'accumulate': 5})
 
 
+def has_marker(ss):
+    """Lean: hasMarker — an outline start / end pragma somewhere in ss"""
+    return any(start_of(s) is not None or is_end(s) or any(has_marker(l) for l in sub_lists(s)) for s in ss)
+
+
 def escapes(ss):
     """an EXIT / CYCLE in ss that belongs to a loop outside ss"""
     for s in ss:
@@ -414,7 +438,9 @@ def add_regions(rng, prog):
     n_regions = 1 if rng.random() < 0.7 else 2
     used = []
     for _ in range(n_regions):
-        cands = [(l, d) for l, d in _lists(body) if l and not any(l is x for x in used)]
+        inside = [x for r in used for s in r for sl_ in sub_lists(s) for x, _ in _lists(sl_)]
+        cands = [(l, d) for l, d in _lists(body)
+                 if l and not has_marker(l) and not any(l is x for x in inside)]
         if not cands:
             break
         wts = [1.0 / (1 + 2 * d) for _, d in cands]
@@ -444,16 +470,17 @@ def add_regions(rng, prog):
                 x = rng.choice(pool)
                 text += f' inout({x})'
         l[i:j] = [[A('nop'), A('pragma'), text]] + sl + [[A('nop'), A('pragma'), END]]
-        used.append(l)
+        used.append(sl)
     return fir.canon(prog)
 
 
 def decode(req):
     kind = str(req[0])
     if kind == 'extract':
-        if len(req) != 3 or not isinstance(req[1], str) or not isinstance(req[2], list):
+        if len(req) != 4 or not isinstance(req[1], str) or not isinstance(req[2], list) or len(req[2]) != 1 \
+                or not isinstance(req[2][0], str) or str(req[3]) not in ('mod', 'file'):
             raise ValueError('malformed request')
-        return kind, req[1], req[2], 'nogf'
+        return kind, req[1], req[2], str(req[3])
     prog = req[1]
     inputs = req[2]
     flag = str(req[3]) if len(req) > 3 else 'nogf'
@@ -473,7 +500,7 @@ def extract_source(rng):
     (the oracle's reference).  Returns (fortran text, reference FIR program)."""
     n_sym = rng.random() < 0.5
     ext = 'n' if n_sym else str(rng.randint(2, 5))
-    c1, c2, c3 = rng.randint(1, 4), rng.randint(-3, 3), rng.randint(1, 3)
+    c1, c2, c3 = rng.randint(1, 4), rng.randint(0, 5), rng.randint(1, 3)
     use_arr = rng.random() < 0.7
     use_y = rng.random() < 0.6
     twice = rng.random() < 0.5
@@ -509,17 +536,23 @@ def extract_source(rng):
     return src, '\n'.join(ref) + '\n'
 
 
-def real_extract(src):
-    """extract_internal_procedures on the text; returns (FIR program of the result, fgen text)"""
+def real_extract(src, form):
+    """extract_internal_procedures through ExtractTransformation; form 'file': the host is a free subroutine
+    (transform_file), form 'mod': the host is wrapped in a module (transform_module).  Returns (Sourcefile, fgen text)"""
     from loki import fgen
     from loki.transformations.extract import ExtractTransformation
+    if form == 'mod':
+        src = 'module m\nimplicit none\ncontains\n' + src + 'end module m\n'
     sf = fir.parse_fortran(src)
     try:
-        ExtractTransformation(extract_internals=True, outline_regions=False).transform_file(sf)
+        t = ExtractTransformation(extract_internals=True, outline_regions=False)
+        if form == 'mod':
+            t.transform_module(sf['m'])
+        else:
+            t.transform_file(sf)
         text = fgen(sf.ir)
     except Exception as e:
         raise TransformError(f'{type(e).__name__}: {str(e)[:120]}') from e
-    # the transformed call uses keyword arguments (outside FIR): re-parse Loki's own text after making the call positional
     return sf, text
 
 
@@ -587,7 +620,7 @@ class C33(Prop):
         n_ext = {'quick': 6, 'thorough': 40, 'search': 20}.get(tier, 6)
         for j in range(n_ext):
             src, ref = extract_source(rng)
-            yield Case([A('extract'), src, [ref]], stream='extract')
+            yield Case([A('extract'), src, [ref], A('file' if j % 6 == 5 else 'mod')], stream='extract')
 
     # ---- real code
     def impl(self, req):
@@ -623,7 +656,7 @@ class C33(Prop):
     def oracle(self, req):
         kind, prog, inputs, flag = decode(req)
         if kind == 'extract':
-            return self.oracle_extract(prog, inputs[0])
+            return self.oracle_extract(prog, inputs[0], flag)
         cs = self.classes_of(prog)
         plain = [c for c in cs if c != K_OUT]
         cls = plain[0] if plain else None
@@ -667,21 +700,22 @@ class C33(Prop):
                     return [Failure(f'outline: transformed program behaves differently (gfortran): {d}', cls)]
         return fails
 
-    def oracle_extract(self, src, ref_src):
+    def oracle_extract(self, src, ref_src, form):
         """host + internal procedure (reference = hand-inlined equivalent, executed by the interpreter) vs the really
-        extracted procedures (exported to FIR after making the keyword call positional)"""
+        extracted procedures (gfortran syntax check of Loki's own text; exported to FIR after making the keyword call
+        positional, executed by the interpreter)"""
+        cls = K_EXT if form == 'file' else None      # Lean: KnownExtractExternal
         ref = fir.export_unit(fir.parse_fortran(ref_src), main='kernel')
         try:
-            sf, text = real_extract(src)
+            sf, text = real_extract(src, form)
             positional_calls(sf)
-            tp = fir.export_unit(sf, main='kernel')
+            tp = fir.export_unit(sf['m'] if form == 'mod' else sf, main='kernel')
         except (TransformError, fir.Unsupported) as e:
-            return [Failure(f'extract: transformation or export of its result raised {type(e).__name__}: {str(e)[:120]}', None)]
-        rng = _random.Random(len(src) * 7919 + sum(map(ord, src)))
+            return [Failure(f'extract: transformation or export of its result raised {type(e).__name__}: {str(e)[:120]}', cls)]
         err = fir.gfortran_syntax_check(text)
         if err:
-            cls = K_EXT if known_extract_order(tp) else None
             return [Failure(f'extract: gfortran rejects the extracted source printed by fgen: {err[:160]}', cls)]
+        rng = _random.Random(len(src) * 7919 + sum(map(ord, src)))
         for inp in fir.gen_inputs(rng, ref, 3):
             a = fir.interp(ref, inp)
             if a[0] != 'ok':
@@ -689,22 +723,8 @@ class C33(Prop):
             b = fir.interp(tp, inp)
             d = fir.compare_results(a, b, undef_wild=False)
             if d:
-                cls = K_EXT if known_extract_order(tp) else None
                 return [Failure(f'extract: extracted program behaves differently (interpreter): {d}', cls)]
         return []
-
-
-def known_extract_order(tp):
-    """`extract-shape-symbol-order`: a dummy array of an extracted procedure is declared before the (appended) dummy that its
-    shape mentions"""
-    for u in units(tp)[1:]:
-        seen = set()
-        for d in u[3]:
-            for b in d[4]:
-                if any(x not in seen for x in ex_vars(b[0]) + ex_vars(b[1])):
-                    return True
-            seen.add(str(d[1]))
-    return False
 
 
 PROP = C33()
